@@ -33,17 +33,20 @@ NEEDS_EXT = True
 TRUSTED = [
     "C11: socket.inet_ntop's text formatting (libc) — the model stops at the 4/16 packed bytes handed to it; the harness maps the returned text back with socket.inet_pton",
     "C11: kernel-side renderers of /proc/net/{tcp,tcp6,udp,udp6,unix} and of the socket:[ino] links in Spec/C11.lean (transcribed from get_tcp4_sock/get_tcp6_sock/udp4_format_sock/unix_seq_show); validated on every run against an independent printf-style Python renderer (byte equality on every generated world)",
-    "C11: text-mode reading is modelled as identity on bytes (PYTHONUTF8=1 + surrogateescape); str.split() = ASCII-whitespace split; int(s,16)/int(s) on plain digit strings; listing order of /proc and /proc/<pid>/fd is an input of the model",
+    "C11: text-mode reading is modelled as identity on bytes (PYTHONUTF8=1 + surrogateescape, newline='\\n'); str.split() = ASCII-whitespace split; int(s,16)/int(s) on plain digit strings; listing order of /proc and /proc/<pid>/fd is an input of the model",
+    "C11: OSError(errno) raised by the injected os.readlink/os.listdir is what the kernel call would raise for that errno (Python's errno -> exception-class mapping is exercised for real); a Python without IPv6 is emulated by socket.inet_ntop raising ValueError for AF_INET6 and socket.has_ipv6 = False",
 ]
 MANIFEST = {
-    "level_text": "Machine-checked Lean 4 proofs over a transcription of _pslinux.NetConnections (decode_address, process_inet, process_unix, get_proc_inodes, get_all_inodes, retrieve) and the front-end kind check: address round-trip for EVERY IPv4/IPv6 address and port on both endiannesses against the kernel's %08X-per-host-order-word rendering (C11_addr_roundtrip_v4/v6, C11_port_zero_empty), the 11-state status map and both kind tables by `decide` over the translator-generated tables (C11_status_map, C11_kind_table, C11_kind_files), unknown kind -> ValueError, exact parsing of every rendered tcp/udp/unix line incl. UNIX names with blanks (C11_inet_line, C11_unix_line), owner lookup for every descriptor table (C11_owner), and the resulting rows/per-process statements (C11_rows_exact, C11_per_process_only_own); proved counterexamples for the two pre-fix behaviours (UNIX path with a blank, UNIX socket shared by two processes). Tied to the code by translator facts (both kind tables, TCP_STATUSES, family/type constants, endianness, tuple-unpack indices, the path expression and the inode-merge statement) feeding cfg_good, and by a differential run of the real front-end functions over a fake procfs.",
-    "level_note": "Trusted: Lean kernel + {propext, Classical.choice, Quot.sound}; translator; correspondence harness; inet_ntop text formatting (libc); kernel renderers (validated against an independent printf renderer each run); text decoding modelled as identity on bytes; '\\r' and '\\n' inside UNIX names outside the domain.",
-    "technique": "Lean 4 round-trip proofs (render -> parse) by structural induction + `decide` over generated tables + translator-fed proof obligation + differential correspondence over a fake procfs with exhaustive kind x (family,type) sweep",
+    "level_text": "Machine-checked Lean 4 proofs over a transcription of _pslinux.NetConnections (decode_address, process_inet, process_unix, get_proc_inodes, get_all_inodes, retrieve), wrap_exceptions around Process.net_connections and the front-end kind check: address round-trip for EVERY IPv4/IPv6 address and port on both endiannesses against the kernel's %08X-per-host-order-word rendering (C11_addr_roundtrip_v4/v6, C11_port_zero_empty), the 11-state status map and both kind tables by `decide` over the translator-generated tables (C11_status_map, C11_kind_table, C11_kind_files), unknown kind -> ValueError, exact parsing of every rendered tcp/udp/unix line incl. UNIX names with blanks and carriage returns (C11_inet_line, C11_unix_line, C11_unix_name_with_cr), owner lookup for every descriptor table (C11_owner), the resulting rows/per-process statements (C11_rows_exact, C11_per_process_only_own) and their NUMBER incl. any number of sockets sharing inode 0 (C11_rows_count, C11_rows_count_inode0); with every errno outcome of os.listdir/os.readlink explicit: a descriptor or process that cannot be inspected (ENOENT, ESRCH, EINVAL, ENAMETOOLONG, EACCES, EPERM) contributes no holder and never fails the system-wide call (C11_scan_never_fails, C11_scan_no_holder, C11_scan_process, C11_scan_process_error), other errnos propagate (proved: C11_scan_fatal_errno_propagates); on a Python that cannot format IPv6 addresses the rows needing an IPv6 text are left out and IPv4/UNIX rows are unaffected (C11_noipv6_rows, C11_noipv6_left_out, C11_noipv6_v4_unix_unaffected); proved counterexamples for the two pre-fix behaviours (UNIX path with a blank, UNIX socket shared by two processes). Tied to the code by translator facts (both kind tables, TCP_STATUSES, family/type constants, endianness, tuple-unpack indices, the path expression and the inode-merge statement) feeding cfg_good, and by a differential run of the real front-end functions over a fake procfs with per-path fault injection into os.readlink/os.listdir, a patched socket.inet_ntop/has_ipv6, and every query made in several call modes (plain, oneshot fresh/warm, as_dict, process_iter object, second call, deprecated alias; system-wide while oneshot blocks are open).",
+    "level_note": "Trusted: Lean kernel + {propext, Classical.choice, Quot.sound}; translator; correspondence harness (incl. the fault-injection shims); inet_ntop text formatting (libc); kernel renderers (validated against an independent printf renderer each run); text decoding modelled as identity on bytes; '\\n' inside UNIX names outside the domain; zombie / vanished-process handling of wrap_exceptions (C03) fixed to 'stat present, not a zombie'.",
+    "technique": "Lean 4 round-trip proofs (render -> parse) by structural induction + simulation of the errno-explicit model by the error-free core + `decide` over generated tables + translator-fed proof obligation + differential correspondence over a fake procfs with fault injection, call modes and an exhaustive kind x (family,type) x mode sweep",
     "design_ref": "DESIGN.md §5 C11",
 }
 ASSUMPTIONS = [
-    "UNIX socket names contain no '\\n' (the kernel cannot show one unambiguously) and no '\\r' (text-mode universal newlines); procfs text is read byte-transparently (PYTHONUTF8=1)",
+    "UNIX socket names contain no '\\n' (the kernel cannot show one unambiguously); procfs text is read byte-transparently (PYTHONUTF8=1)",
     "a TCP/UDP socket held through several descriptors is reported once with one of its holders (the statement asks one row per holder only for UNIX sockets)",
+    "a readlink denied with EACCES/EPERM concerns the whole process (the kernel checks ptrace access to the task): such a process counts as not inspectable, like one whose fd directory cannot be listed",
+    "errnos other than ENOENT/ESRCH/EINVAL/ENAMETOOLONG/EACCES/EPERM (readlink) and ENOENT/ESRCH/EACCES/EPERM (listdir) are genuine I/O failures: the promise is silent, the model says they propagate (implementation vs model)",
 ]
 
 NET_NAMES = ["tcp", "tcp6", "udp", "udp6", "unix"]
@@ -1094,10 +1097,11 @@ def correspond(ctx, res):
     impl = Impl(ctx)
     rng = ctx.rng
     try:
-        res.rule = ("(world, query) pairs: worlds = random socket tables + descriptor tables from 6 clause-directed families "
-                    "(PRNG from VERIF_SEED), corpus witnesses, an exhaustive kind sweep, and a malformed-file stream; "
-                    "non-trivial = the specification promises at least one row or an exception; distinct = distinct "
-                    "(socket table, listing, query)")
+        res.rule = ("(world, query, call mode) triples: worlds = random socket tables + descriptor tables from 11 clause-directed "
+                    "families (PRNG from VERIF_SEED; incl. failing readlink/listdir by errno class and a Python without IPv6 "
+                    "text support), corpus witnesses in every call mode, exhaustive kind x caller x mode sweeps, and a "
+                    "malformed-file stream; non-trivial = the specification promises at least one row or an exception; "
+                    "distinct = distinct (socket table, listing, host flags, query, mode)")
         items = []
         for w in CORPUS:
             p0 = w["procs"][0][0]
@@ -1106,7 +1110,7 @@ def correspond(ctx, res):
             for q in cq:
                 q["modes"] = modes_for(q)              # the witnesses are replayed in every call mode
             items.append(("corpus", w, cq))
-        n = ctx.n(1500, 30000)
+        n = ctx.n(1200, 30000)
         for i in range(n):
             fam = FAMILIES[i % len(FAMILIES)]
             w = gen_world(rng, fam)
@@ -1293,6 +1297,14 @@ def shrink(ctx, d):
                 return _eval_world(ctx, impl, w, q)[0]
             except InfraError:
                 return False
+        # a failure that does not need its call mode is reported with the plain call
+        if q.get("modes") and q["modes"] != ["plain"]:
+            q_plain = dict(q, modes=["plain"])
+            try:
+                if _eval_world(ctx, impl, world, q_plain)[0]:
+                    q = q_plain
+            except InfraError:
+                pass
         budget = [40]
         changed = True
         while changed and budget[0] > 0:
